@@ -39,7 +39,8 @@ func c01Scenario(r *rand.Rand, i int) relayScenario {
 		sh.Name, sh.HdrChangeAt = "hdr-change", 2
 	}
 	// payload lengths on both sides of multiples of the out-chunk size (4096) and the publisher's chunk size
-	sizes := []int{22, 30, 100, 127, 128, 129, 4095, 4096, 4097, 8191, 8192, 8193, 12288, 12289, 20000}
+	sizes := []int{22, 30, 100, 127, 128, 129, 4095, 4096, 4097, 8191, 8192, 8193, 12288, 12289, 20000,
+		65519, 65520, 65521, 65535, 65536} // 65520: the FLV tag (11+payload+4) is exactly 65535 bytes, the largest 16-bit WebSocket frame
 	for _, k := range []int{1, 2, 3} {
 		sizes = append(sizes, k*sc.PubChunk-1, k*sc.PubChunk, k*sc.PubChunk+1)
 	}
